@@ -402,7 +402,7 @@ Proof. apply trans_not. Qed.
 
 Section Productions.
 Variables lf df : nat.
-Let P := adm lf df.
+Local Notation P := (adm lf df).
 
 Lemma P_closed : closed P.
 Proof. apply adm_closed. Qed.
@@ -500,7 +500,7 @@ Proof.
   unfold p_double_constant. apply trans_map_res, trans_recognize.
   apply trans_seq_same; [tr|intro]. apply trans_seq_same; [tr|intro].
   apply trans_alt. repeat apply Forall_cons; try apply Forall_nil.
-  - Show. tr.
+  - tr.
   - tr.
   - tr.
 Qed.
@@ -525,3 +525,174 @@ Qed.
 Hint Resolve tr_enum : safe.
 
 End Productions.
+
+(* ---------- the same facts, for every lf and df ---------- *)
+Lemma adm_len lf df i : adm lf df i -> length i < lf.
+Proof. intros [H _]. exact H. Qed.
+#[export] Hint Extern 1 (forall i, adm ?lf ?df i -> length i < ?lf) => exact (adm_len lf df) : safe.
+#[export] Hint Resolve tr_comment tr_blank tr_list_separator tr_keyword tr_ident tr_path tr_literal tr_annotation
+  tr_annotations tr_include tr_cpp_include tr_scope tr_namespace tr_cpp_type tr_int_constant tr_exponent
+  tr_double_constant tr_attribute tr_field_id tr_enum_value tr_enum : safe.
+
+Ltac trg := unfold digit1, hex_digit1, multispace1; auto 30 with safe.
+Ltac stepS := apply trans_seq_same; [trg | intro].
+
+Lemma adm_weaken lf d i : adm lf d i -> adm lf (S d) i.
+Proof. intros [H1 H2]. split; lia. Qed.
+
+(* consuming an opening bracket pays for one level of native recursion *)
+Lemma trans_tag_open lf d t : 0 < openers t -> trans (adm lf (S d)) (adm lf d) (tag t).
+Proof.
+  intros Ht i [L O]. unfold tag. destruct (strip_prefix t i) as [r|] eqn:E; cbn; auto.
+  apply strip_prefix_app in E. subst i. rewrite openers_app in O. rewrite app_length in L.
+  split; [now exists t|]. split; lia.
+Qed.
+
+Lemma tr_type_of lf df (pty : parser Ty) :
+  trans (adm lf df) (adm lf df) pty -> trans (adm lf df) (adm lf df) (p_type_of lf pty).
+Proof.
+  intros T. unfold p_type_of. apply trans_seq_same; [exact T|intro].
+  apply trans_seq_same; [|intro; trg].
+  apply trans_opt; [trg|]. apply trans_seq_same; [|intro; trg].
+  apply trans_permutation2; trg.
+Qed.
+
+Lemma tr_base_ty lf df k t : trans (adm lf df) (adm lf df) (p_base_ty k t).
+Proof. unfold p_base_ty. trg. Qed.
+#[export] Hint Resolve tr_base_ty : safe.
+
+Lemma open_list_lt : 0 < openers sym_list_lt. Proof. cbv. lia. Qed.
+Lemma open_set_lt : 0 < openers sym_set_lt. Proof. cbv. lia. Qed.
+Lemma open_map_lt : 0 < openers sym_map_lt. Proof. cbv. lia. Qed.
+Lemma open_clist : 0 < openers sym_clist_open. Proof. cbv. lia. Qed.
+Lemma open_cmap : 0 < openers sym_cmap_open. Proof. cbv. lia. Qed.
+
+(* Ty::parse : the native recursion Ty -> Type -> Ty happens only after a '<' has been consumed *)
+Lemma tr_ty lf : forall d, trans (adm lf d) (adm lf d) (p_ty lf d).
+Proof.
+  induction d as [|d IH].
+  - intros i [_ O]. lia.
+  - pose proof (tr_type_of lf d _ IH) as IHt.
+    cbn [p_ty]. apply trans_alt. repeat apply Forall_cons; try apply Forall_nil; try (apply tr_base_ty).
+    + (* list *)
+      stepS. stepS. eapply trans_seq; [apply trans_tag_open, open_list_lt | intro].
+      apply trans_post with (Q := adm lf d); [apply adm_weaken|].
+      stepS. apply trans_seq_same; [exact IHt|intro]. stepS. stepS. stepS. trg.
+    + (* set *)
+      stepS. stepS. stepS. eapply trans_seq; [apply trans_tag_open, open_set_lt | intro].
+      apply trans_post with (Q := adm lf d); [apply adm_weaken|].
+      stepS. apply trans_seq_same; [exact IHt|intro]. stepS. stepS. trg.
+    + (* map *)
+      stepS. stepS. stepS. eapply trans_seq; [apply trans_tag_open, open_map_lt | intro].
+      apply trans_post with (Q := adm lf d); [apply adm_weaken|].
+      stepS. apply trans_seq_same; [exact IHt|intro]. stepS. stepS. stepS.
+      apply trans_seq_same; [exact IHt|intro]. stepS. stepS. trg.
+    + trg.
+Qed.
+
+Lemma tr_type lf df : trans (adm lf df) (adm lf df) (p_type lf df).
+Proof. apply tr_type_of, tr_ty. Qed.
+#[export] Hint Resolve tr_type : safe.
+
+(* ConstValue::parse : recursion only after '[' or '{' *)
+Lemma tr_const_value lf : forall d, trans (adm lf d) (adm lf d) (p_const_value lf d).
+Proof.
+  induction d as [|d IH].
+  - intros i [_ O]. lia.
+  - cbn [p_const_value]. apply trans_alt. repeat apply Forall_cons; try apply Forall_nil; try (trg; fail).
+    + (* list *)
+      eapply trans_seq; [apply trans_tag_open, open_clist | intro].
+      apply trans_post with (Q := adm lf d); [apply adm_weaken|].
+      apply trans_seq_same; [|intro; trg].
+      apply trans_many0; [trg|].
+      stepS. apply trans_seq_same; [exact IH|intro]. trg.
+    + (* map *)
+      eapply trans_seq; [apply trans_tag_open, open_cmap | intro].
+      apply trans_post with (Q := adm lf d); [apply adm_weaken|].
+      apply trans_seq_same; [|intro; trg].
+      apply trans_many0; [trg|].
+      stepS. apply trans_seq_same; [exact IH|intro]. stepS. stepS. stepS.
+      apply trans_seq_same; [exact IH|intro]. trg.
+Qed.
+#[export] Hint Resolve tr_const_value : safe.
+
+Section Productions2.
+Variables lf df : nat.
+Local Notation P := (adm lf df).
+
+Lemma tr_constant : trans P P (p_constant lf df).
+Proof. unfold p_constant. trg. Qed.
+
+Lemma tr_typedef : trans P P (p_typedef lf df).
+Proof. unfold p_typedef. trg. Qed.
+
+Lemma tr_field : trans P P (p_field lf df).
+Proof. unfold p_field. do 8 stepS. trg. Qed.
+
+Lemma tr_fields0 : trans P P (many0 lf (fun i => do i, _ <- opt (p_blank lf) i ;; p_field lf df i)).
+Proof. pose proof tr_field. apply trans_many0; trg. Qed.
+
+Lemma tr_fields1 : trans P P (many1 lf (fun i => do i, _ <- opt (p_blank lf) i ;; p_field lf df i)).
+Proof. pose proof tr_field. apply trans_many1; trg. Qed.
+
+Lemma tr_struct_like : trans P P (p_struct_like lf df).
+Proof. pose proof tr_fields0. unfold p_struct_like. do 3 stepS. trg. Qed.
+
+Lemma tr_struct : trans P P (p_struct lf df).
+Proof. pose proof tr_struct_like. unfold p_struct. trg. Qed.
+Lemma tr_union : trans P P (p_union lf df).
+Proof. pose proof tr_struct_like. unfold p_union. trg. Qed.
+Lemma tr_exception : trans P P (p_exception lf df).
+Proof. pose proof tr_struct_like. unfold p_exception. trg. Qed.
+
+Lemma tr_function : trans P P (p_function lf df).
+Proof.
+  pose proof tr_fields1. unfold p_function.
+  apply trans_seq_same; [apply trans_pmap; trg|intro]. do 9 stepS.
+  apply trans_seq_same; [|intro; trg].
+  apply trans_opt; [trg|]. do 3 stepS. trg.
+Qed.
+
+Lemma tr_service : trans P P (p_service lf df).
+Proof.
+  pose proof tr_function. unfold p_service. do 6 stepS.
+  apply trans_seq_same; [|intro; trg]. apply trans_many0; trg.
+Qed.
+
+Lemma tr_item_keyword : trans P P p_item_keyword.
+Proof. unfold p_item_keyword. trg. Qed.
+
+Lemma tr_item : trans P P (p_item lf df).
+Proof.
+  pose proof tr_constant. pose proof tr_typedef. pose proof tr_struct. pose proof tr_union.
+  pose proof tr_exception. pose proof tr_service.
+  unfold p_item. apply trans_seq_same; [apply tr_item_keyword|intro kw].
+  repeat match goal with |- trans _ _ (fun _ => if ?c then _ else _) => destruct c end;
+    try (apply trans_pmap; trg).
+  intros i _. exact I.
+Qed.
+
+Lemma tr_file : trans P P (p_file lf df).
+Proof.
+  pose proof tr_item. unfold p_file. apply trans_seq_same; [|intro; trg].
+  apply trans_many_till; trg.
+Qed.
+End Productions2.
+
+(* ---------- C16 ---------- *)
+Definition outcome_ok {A} (r : pres A) : Prop :=
+  match r with POk _ _ | PErr _ _ | PFail _ _ => True | PPanic _ | PFuel _ => False end.
+
+Lemma ok_res_outcome {A} Q i (r : pres A) : ok_res Q i r -> outcome_ok r.
+Proof. destruct r; cbn; auto. Qed.
+
+(* loop fuel above the length and depth fuel above the number of opening brackets are never exhausted, and no
+   conversion panics *)
+Theorem parse_fuel_sufficient : forall lf df s, length s < lf -> openers s < df -> outcome_ok (p_file lf df s).
+Proof. intros lf df s L O. eapply ok_res_outcome. apply tr_file. split; assumption. Qed.
+
+Theorem parse_total : forall s, outcome_ok (parse_file s).
+Proof.
+  intros s. unfold parse_file. apply parse_fuel_sufficient; [lia|].
+  pose proof (openers_le_len s). lia.
+Qed.
